@@ -2282,3 +2282,55 @@ func c08r23(rc *core.RC) {
 		rc.Unknown("module/IsNil-in-kind-switch", token.NoPos, "found %d clauses of a kind switch that call IsNil on the switched value", n)
 	}
 }
+
+// ---- C08.R24 the pointer depth of a chain and of the first member do not share one field ----
+
+// A struct head opcode that is merged with its first member (OpStructHeadIntPtr, …StringPtr, …) carries in PtrNum
+// the pointer depth of that member. PtrCode.ToOpcode converts the head into its pointer variant and stores the depth
+// of the pointer chain in the same field. The pointer-head handlers then follow code.PtrNum pointers twice: to reach
+// the struct and to reach the member's value. That is right only when the two depths are equal. For **struct{ P *int
+// … } the member is followed once too often (the integer is dereferenced: panic); for *struct{ P **int … } once too
+// rarely (the inner pointer is printed). The overwrite has to be guarded (a separate dereference step, or no merge
+// of the first member) whenever the head already carries a member depth.
+func c08r24(rc *core.RC) {
+	p := rc.P
+	n := 0
+	for _, name := range []string{"PtrCode.ToOpcode", "PtrCode.ToAnonymousOpcode"} {
+		fd := p.Func("encoder", name)
+		if fd == nil || fd.Body == nil {
+			rc.Unknown("encoder."+name, token.NoPos, "function not found")
+			continue
+		}
+		info := p.Info(fd)
+		fn := p.FuncName(fd)
+		rc.Touch(fn)
+		ast.Inspect(fd.Body, func(m ast.Node) bool {
+			as, ok := m.(*ast.AssignStmt)
+			if !ok || len(as.Lhs) != 1 || len(as.Rhs) != 1 {
+				return true
+			}
+			f := core.FieldOf(info, as.Lhs[0])
+			if f == nil || f.Name() != "PtrNum" {
+				return true
+			}
+			n++
+			key := fn + "/chain-depth-stored-in-PtrNum guarded-against-a-member-depth"
+			guarded := false
+			for _, c := range condChainNodes(fd, as) {
+				ast.Inspect(c.cond, func(k ast.Node) bool {
+					if e, isE := k.(ast.Expr); isE {
+						if g := core.FieldOf(info, e); g != nil && g.Name() == "PtrNum" {
+							guarded = true
+						}
+					}
+					return true
+				})
+			}
+			rc.Check(guarded, key, as.Pos(), "the depth of the pointer chain is stored in the head's PtrNum only under a test of the depth the head already carries for its first member: the pointer-head handlers follow code.PtrNum pointers both to the struct and to the member, so unequal depths make them dereference the member once too often or too rarely")
+			return true
+		})
+	}
+	if n < 2 {
+		rc.Unknown("encoder/PtrCode-depth", token.NoPos, "found %d stores of the chain depth into PtrNum (confirmed: 2)", n)
+	}
+}
